@@ -5,7 +5,7 @@ usage: tools/run_seeds.py [name-substring]"""
 import json, os, re, shutil, subprocess, sys, tempfile
 from pathlib import Path
 ROOT = Path(__file__).resolve().parent.parent
-EXTRA = {"C20": ["C07", "C20"], "C04": ["C04", "C16"], "C05": ["C05", "C18"], "C19": ["C19", "C02"]}
+EXTRA = {"C20": ["C07", "C20"], "C04": ["C04", "C16"], "C05": ["C05", "C18"], "C19": ["C19", "C02", "C08"], "C03": ["C03", "C14"], "C02": ["C02", "C08"]}
 flt = sys.argv[1] if len(sys.argv) > 1 else ""
 for d in sorted((ROOT / "seeded").iterdir()):
     if not re.search(flt, d.name) or not (d / "patch.diff").exists():
